@@ -93,6 +93,12 @@ CLAIMED["C18"] = dict(
     technique="Lean 4 characterisation theorem of the de-duplication/gather logic by induction over the datagram list; differential run on a simulated network",
     note="asyncio task scheduling and gather are trusted; the V1 TCP info query is modelled only as 'contributes no device'.")
 
+CLAIMED["C19"] = dict(
+    text="Theorems (Lean 4, unbounded): the signature is independent of field order for every body with distinct keys (mergeSort result is the unique sorted permutation); every form the model posts verifies under a conforming server that canonicalises with its OWN (insertion) sort; the password sent is the server's expected derivation; the session id is echoed in every later body; get_token returns exactly the first entry whose udpId equals the requested one (a member of the list with that id) and a cloud error iff none matches - never another entry's credentials; for EVERY sequence of timeouts / HTTP errors / API error codes at most `retries` attempts are made and every failure is a cloud error (all-timeouts: exactly `retries` attempts); with a service answering every udpid query, the device is authenticated with the credentials of whichever of udpid(LE id), udpid(BE id) it accepts (LE first); recorded limitation proved: a cloud error on the first query aborts without trying the other order. Tie: the real NetHomePlusCloud through httpx.MockTransport (the repo's own get_async_client injection) against a server shell whose contract decisions are made by the Lean Spec; token lists with the match absent/first/middle/last/duplicated among near-miss ids; all 125 fault sequences of length 3; signature and password derivation correspondence on random bodies; Discover.discover(auto_connect=True) with a V3 simulated device registered under either byte order.",
+    design="DESIGN.md §6 C19",
+    technique="Lean 4 theorems (sorting uniqueness, find-first, retry induction) + spec-server differential harness via httpx.MockTransport",
+    note="httpx, urllib.parse quote/unquote round trip (printable ASCII) and JSON parsing are trusted; SmartHomeCloud is not modelled.")
+
 NOT_YET = {
 }
 
